@@ -98,7 +98,7 @@ VersMaps == {TDict(<<>>)} \cup
 StartBuild ==
   /\ s.ph = "idle" /\ s.builds < MaxBuilds
   /\ \E vm \in VersMaps :
-       LET e1 == [ev |-> "build", name |-> "B", vers |-> vm, disk |-> EntriesOf(s.disk),
+       LET e1 == [ev |-> "build", name |-> "B", vers |-> vm, bad |-> FALSE, disk |-> EntriesOf(s.disk),
                   cser |-> CSer(s.disk)]
            s1 == Apply(s, e1)
            e2 == [ev |-> "root_begin"]
@@ -113,7 +113,8 @@ CleanStep ==
   /\ s.ph = "idle" /\ nc < MaxCleans
   /\ LET after == IF CacheState(s.disk, s.rec, CSer(s.disk)) = "valid"
                   THEN CleanDisk(s.disk, s.rec) ELSE s.disk
-         e == [ev |-> "clean", name |-> "B", noname |-> FALSE, disk |-> EntriesOf(s.disk),
+         e == [ev |-> "clean", name |-> "B", noname |-> FALSE, bad |-> FALSE, tmp |-> TRUE, fault |-> FALSE,
+               disk |-> EntriesOf(s.disk),
                cser |-> CSer(s.disk), out |-> "ok", err |-> "", after |-> EntriesOf(after)]
      IN /\ s' = Apply(s, e)
         /\ bad' = Note(Check(s, e))
@@ -183,7 +184,7 @@ DoCall(stmt) ==
       pd == s1.pend
   IN IF pd.serr # "" THEN
        LET e2 == [ev |-> IF stmt.s = "bf" THEN "bf_end" ELSE "sb_end", inv |-> FALSE, out |-> "raised",
-                  err |-> pd.serr, same |-> FALSE, ret |-> TNone, real |-> "none"]
+                  err |-> pd.serr, same |-> FALSE, ret |-> TNone, real |-> "none", fault |-> FALSE]
        IN /\ s' = Apply(s1, e2)
           /\ bad' = Note(IF Check(s, e1) # "" THEN Check(s, e1) ELSE Check(s1, e2))
           /\ UNCHANGED preds
@@ -192,7 +193,7 @@ DoCall(stmt) ==
            \* what the reuse rule predicts (state after serving the record from the cache)
            eR == [ev |-> IF stmt.s = "bf" THEN "bf_end" ELSE "sb_end", inv |-> FALSE, out |-> "ok",
                   err |-> "", same |-> FALSE, ret |-> IF pd.lk.found THEN pd.lk.r.ret ELSE TNone,
-                  real |-> "file"]
+                  real |-> "file", fault |-> FALSE]
            pred == IF pd.lk.found /\ pd.lk.valid
                    THEN [on |-> TRUE, valid |-> TRUE, fuzzy |-> pd.lk.fuzzy, r |-> pd.lk.r,
                          post |-> LET sR == Apply(s1, eR) IN
@@ -260,7 +261,7 @@ DoEnd(stmt) ==
                   out |-> IF ok THEN "ok" ELSE "raised",
                   err |-> IF ok THEN "" ELSE IF stmt.s = "ret" THEN "RuntimeError" ELSE "UserError",
                   same |-> ~ok /\ stmt.s # "ret", ret |-> IF ok THEN TStr("r") ELSE TNone,
-                  real |-> IF ok THEN "file" ELSE "none"]
+                  real |-> IF ok THEN "file" ELSE "none", fault |-> FALSE]
            s2 == Apply(s1, e2)
            newrec == Top(s2).subs[Len(Top(s2).subs)]
            rv == ReuseVerdict(s2, preds[Len(preds)], newrec, s)
@@ -275,6 +276,7 @@ DoEnd(stmt) ==
                 THEN Put(FinalView(s1), CachePath, FileNode("K", 1, ser))
                 ELSE s.pre
            e2 == [ev |-> "build_end", inv |-> TRUE, disk |-> EntriesOf(d), cser |-> CSer(d), tmp |-> TRUE,
+                  fault |-> FALSE,
                   out |-> IF stmt.s = "ret" THEN "returned" ELSE "raised",
                   v |-> IF stmt.s = "ret" THEN TStr("r") ELSE TNone,
                   err |-> IF stmt.s = "ret" THEN "" ELSE "UserError", same |-> stmt.s # "ret"]
